@@ -45,8 +45,10 @@ impl RequestHandler<PrepareRenameRequest> for PrepareRenameRequestHandler {
 
                 // Try to find the start of identifier under the cursor
                 let start = line[..source_column]
-                    .rfind(|c: char| !c.is_alphanumeric() && c != '_')
-                    .map(|pos| pos + 1)
+                    .char_indices()
+                    .rev()
+                    .find(|(_, c)| !c.is_alphanumeric() && *c != '_')
+                    .map(|(pos, c)| pos + c.len_utf8())
                     .unwrap_or_default();
 
                 // Find the end of the identifier under the cursor
